@@ -26,6 +26,32 @@ EVIDENCE = {"scheduler_faults", "faulted_heads", "runtime_fault", "next_schedule
 TEST_SEAMS = {"fail_next_echo_operation_action_tick_construction"}
 
 
+def checkpoint_copy_rules(rep, prog, rid, only_fields=None):
+    """Every state value built while taking the pre-pass checkpoint copies each field from the live value."""
+    ck = prog.fn(WR + "::checkpoint_for")
+    # whole-value capture: every WorldlineState / WorldlineFrontier / WriterHead value built while taking the checkpoint copies each of
+    # its fields from the live value (a field reset to a constant — e.g. an emptied committed-ingress set — is restored as that constant)
+    ck_tree, _ = tree(prog, [ck])
+    n_copy = 0
+    for adt_path in ("warp_core::worldline_state::WorldlineState", "warp_core::worldline_state::WorldlineFrontier", "warp_core::head::WriterHead"):
+        prog.adt(adt_path)
+        for g in ck_tree:
+            ogg = g.origins()
+            for bi, si, place, rv, line in g.assigns():
+                if rv["r"] != "agg" or rv.get("adt") != adt_path:
+                    continue
+                for fld, o in zip(rv["fields"], rv["os"]):
+                    if only_fields and fld not in only_fields:
+                        continue
+                    n_copy += 1
+                    atoms = ogg.of_operand(o, deep=True)
+                    from_live = any(a.kind == "param" for a in atoms)
+                    rep.check(from_live, rid, "checkpoint-copies:%s.%s@%s" % (adt_path.rsplit("::", 1)[-1], fld, g.name),
+                              "copied from the live value", "while taking the pre-pass checkpoint, %s.%s is filled from %s instead of the live value: rollback restores a reset field" % (
+                                  adt_path.rsplit("::", 1)[-1], fld, sorted(str(a.key)[:40] for a in atoms)[:2]), site=g.loc(line))
+    rep.check(n_copy >= (1 if only_fields else 8), rid, "checkpoint-copies:count", "%d field copies examined in the checkpoint tree" % n_copy, "only %d field copies found in the checkpoint tree" % n_copy, site=ck.loc())
+
+
 def run(ctx):
     rep = ctx.report
     prog = ctx.prog("trusted")
@@ -141,6 +167,7 @@ def run(ctx):
     for f in rc["variants"][0]["fields"]:
         rep.check(f["n"] in built and f["n"] in readr, "C09.R3", "RuntimeCheckpoint.%s" % f["n"], "captured and restored",
                   "RuntimeCheckpoint.%s captured=%s restored=%s" % (f["n"], f["n"] in built, f["n"] in readr), site=ck.loc())
+    checkpoint_copy_rules(rep, prog, "C09.R3")
     rbe = prog.adt(CO + "ReceiptCorrelationRollbackEntry")
     rb = prog.fn(WR + "::rollback_receipt_correlations")
     rbr = set(read_set([rb] + [prog.fns[c] for c in prog.closures_in(rb.id)], CO + "ReceiptCorrelationRollbackEntry"))
